@@ -5,6 +5,7 @@ the ones of /repo's working tree; only reactivex plumbing, task generators and I
 replaced.  Every stub is listed in the evidence `assumptions`.
 """
 import logging
+import threading
 import types
 
 import experiment.model.codes as codes
@@ -226,6 +227,8 @@ def new_controller():
     c.optimizer_repeat = None
     c.do_stage_data = None
     c.do_restart_sources = None
+    c.comp_lock = threading.RLock()
+    c.opt_lock = threading.RLock()
     c.comp_staged_in = set()
     c.comp_done = set()
     c.comp_condition_to_dowhile = {}
